@@ -399,14 +399,14 @@ Proof.
     assert (Hacc : forall a, chk_acc te a = true ->
               rok e (res_acc ve a) /\ denote e (res_acc ve a) = XV (VAccount (eval_acc e a)) /\ closed te (res_acc ve a) /\
               (is_const (res_acc ve a) \/ (var_name (res_acc ve a) <> None /\ find_res t (res_acc ve a) O <> None))).
-    { intros a Hc. split; [apply (rok_acc te e ve Ic Ive Hrokve a Hc)|]. split; [apply (denote_acc te e ve Ic Ive a Hc)|].
+    { intros a Hc. split; [apply (rok_acc te e ve Ic Ive (rok e) (fun c => I) Hrokve a Hc)|]. split; [apply (denote_acc te e ve Ic Ive a Hc)|].
       destruct a as [sa|y]; simpl; [split; [intros z []|left; exact I]|].
       destruct (Ive _ _ (has_ty_lookup te _ _ Hc)) as [r0 [Hl Hn]]. unfold rvar. rewrite Hl.
       destruct (vi_rok _ _ _ _ _ _ _ Hi _ _ Hl) as [_ [P C]]. split; [assumption|]. right. split; [congruence|assumption]. }
     assert (Hasset : forall a, chk_asset te a = true ->
               rok e (res_asset ve a) /\ denote e (res_asset ve a) = XV (VAsset (eval_asset e a)) /\ closed te (res_asset ve a) /\
               (is_const (res_asset ve a) \/ (var_name (res_asset ve a) <> None /\ find_res t (res_asset ve a) O <> None))).
-    { intros a Hc. split; [apply (rok_asset te e ve Ic Ive Hrokve a Hc)|]. split; [apply (denote_asset te e ve Ic Ive a Hc)|].
+    { intros a Hc. split; [apply (rok_asset te e ve Ic Ive (rok e) (fun c => I) Hrokve a Hc)|]. split; [apply (denote_asset te e ve Ic Ive a Hc)|].
       destruct a as [sa|y]; simpl; [split; [intros z []|left; exact I]|].
       destruct (Ive _ _ (has_ty_lookup te _ _ Hc)) as [r0 [Hl Hn]]. unfold rvar. rewrite Hl.
       destruct (vi_rok _ _ _ _ _ _ _ Hi _ _ Hl) as [_ [P C]]. split; [assumption|]. right. split; [congruence|assumption]. }
